@@ -601,6 +601,9 @@ class OutputSchemaBuilder(
         # Share the same cache for input_builder in order to share scalar types
         self.input_builder._cache_by_name = self._cache_by_name
         self.get_flattened: Optional[Callable[[Any], Any]] = None
+        self._unions: Dict[
+            Tuple[str, Tuple[str, ...], Optional[str]], graphql.GraphQLUnionType
+        ] = {}
 
     def _field_serialization_method(self, field: ObjectField) -> SerializationMethod:
         return partial_serialization_method_factory(
@@ -834,7 +837,13 @@ class OutputSchemaBuilder(
             types = [factory.raw_type for factory in results]
             if name is None:
                 name = self.union_name_factory([t.name for t in types])
-            return graphql.GraphQLUnionType(name, types, description=description)
+            # the same union can be met several times in a schema
+            key = (name, tuple(t.name for t in types), description)
+            if key not in self._unions:
+                self._unions[key] = graphql.GraphQLUnionType(
+                    name, types, description=description
+                )
+            return self._unions[key]
 
         return TypeFactory(factory)
 
